@@ -1,7 +1,7 @@
 CONSTANTS
   Sess = {1, 2, 3}
   Names = {"a", "b"}
-  Split = TRUE
+  Modes = {FALSE, TRUE}
 INIT TInit
 NEXT TNext
 INVARIANT Report
